@@ -21,7 +21,7 @@ import os
 import tempfile
 from fractions import Fraction as F
 
-from . import common as C
+from . import common as C, genarith
 
 IMPORTS = "From SV Require Import Run_IrvRead.\nOpen Scope Z_scope."
 ANCHORS = [("shangrla/core/Audit.py", ["CVR.get_vote_for", "CVR.rcv_lfunc_wo", "CVR.rcv_votefor_cand",
@@ -659,6 +659,9 @@ def tally_cases(ctx, res, A, RU, RR, ids):
 # ---------------------------------------------------------------- entry point
 def run(ctx, res):
     A, RU, RR = impl()
+    # regenerated tie: whole-function skeletons of the audit-side and generator-side ranked-vote predicates; C14's
+    # equality re-proved between the two regenerated readings (coq/gen/GenProofs_irv_skeletons.v)
+    genarith.regenerate(ctx.pid, "irv_skeletons", res)
     res.stats_reps = {}
     stats = {"sweep_ballots": 0, "sweep_evaluations": 0, "dict_cases": 0, "file_cases": 0, "tally_cases": 0,
              "assertions_returned": {"NEB": 0, "NEN": 0}}
@@ -718,7 +721,7 @@ def run(ctx, res):
                 "compute_raire_assertions (distinct (text, contest) with >= 1 assertion)")
     stats["audit_rank_representation_of_sweep_ballots"] = res.stats_reps
     res.samples = [case_json(c) for c in (sw[:1] + dc[:1] + fc[:1] + tc[:1])]
-    res.stats = stats
+    res.stats.update(stats)
     res.assumptions = [
         "tokenisation of the text format (csv.reader vs str.split+strip) is exercised, not modelled: generated files "
         "have no blanks around commas, no quotes, no blank lines, no candidate named winner/order/informal",
